@@ -49,12 +49,12 @@ def mutant_table():
 def main():
     p = os.path.join(VERIF, "DESIGN.md")
     s = open(p).read()
-    a = s.index("### 7.5 / 7.6")
+    a = s.index("### 7.5 ")
     b = s.index("## 8. Measured cost")
-    body = ("### 7.5 Seeded changes from independent sub-agents (four waves of 20, 80 changes)\n\n"
+    body = ("### 7.5 Seeded changes from independent sub-agents (five waves of 20, 100 changes)\n\n"
             "Every change below compiles, leaves the repository suite at its baseline, and comes with a demonstration that "
-            "passes without and fails with it (`seeded/<name>/`). The second and third wave were told what the earlier waves had done "
-            "and asked for a different mechanism in a different clause of the property.\n\n" + seeded_table() +
+            "passes without and fails with it (`seeded/<name>/`). Waves 2-5 were told what the earlier waves had done "
+            "and asked for a different mechanism in a different clause of the property (themes: section 7.4).\n\n" + seeded_table() +
             "\n\n### 7.6 Hand-written mutants (`mutants/specs.py`)\n\n" + mutant_table() + "\n\n\n")
     open(p, "w").write(s[:a] + body + s[b:])
 
